@@ -168,4 +168,228 @@ theorem lenFits_eq (o : Option Nat) (m : Nat) (h : o ≠ some 0) :
     have : k > 0 := by omega
     simp [Spec.lenFits, this, BEq.beq]
 
+/-! ### inversion of decoder outcomes -/
+
+theorem ctrlFin_eq_ok {p : Bytes} {pec : B} {off : Nat} {r : Bool} {n : Nat} {c : Ctrl}
+    (h : ctrlFin p pec off r n = .ok c) :
+    byteAt p (p.length - 1) = pec ∧ ¬ (n > 0 ∧ p.length - 10 - off ≠ n) ∧
+      c = ⟨Spec.cmdOf p, r, off, p.length - 10 - off⟩ := by
+  unfold ctrlFin at h
+  by_cases h1 : byteAt p (p.length - 1) = pec
+  · by_cases h2 : n > 0 ∧ p.length - 10 - off ≠ n
+    · simp [h1, h2] at h
+    · simp only [h1, h2, ne_eq, not_true, if_false] at h
+      injection h with h
+      exact ⟨h1, h2, h.symm⟩
+  · simp [h1] at h
+
+theorem ctrlFin_eq_err {p : Bytes} {pec : B} {off : Nat} {r : Bool} {n : Nat} {e : DErr}
+    (h : ctrlFin p pec off r n = .err e) :
+    (byteAt p (p.length - 1) ≠ pec ∧ e = (.control, .ctl .pec)) ∨
+    (byteAt p (p.length - 1) = pec ∧ n > 0 ∧ p.length - 10 - off ≠ n ∧ e = (.control, .ctl .len)) := by
+  unfold ctrlFin at h
+  by_cases h1 : byteAt p (p.length - 1) = pec
+  · by_cases h2 : n > 0 ∧ p.length - 10 - off ≠ n
+    · simp only [h1, h2, ne_eq, not_true, if_false] at h
+      injection h with h
+      exact .inr ⟨h1, h2.1, h2.2, h.symm⟩
+    · simp [h1, h2] at h
+  · simp only [h1, ne_eq, not_false_eq_true, if_true] at h
+    injection h with h
+    exact .inl ⟨h1, h.symm⟩
+
+theorem ctrlFin_ne_panic (p : Bytes) (pec : B) (off : Nat) (r : Bool) (n : Nat) (k : Panic) :
+    ctrlFin p pec off r n ≠ .panic k := by
+  unfold ctrlFin; repeat' split
+  all_goals simp
+
+theorem reqDataLen_ne_err (cmd : B) (e : DErr) : reqDataLen cmd ≠ .err e := by
+  rcases reqDataLen_cases cmd with ⟨n, h⟩ | h <;> rw [h] <;> simp
+
+theorem respDataLen_ne_err (cmd : B) (e : DErr) : respDataLen cmd ≠ .err e := by
+  rcases respDataLen_cases cmd with ⟨n, h⟩ | h <;> rw [h] <;> simp
+
+/-- inversion of a successful control decode -/
+theorem getCtrl_ok_inv {p : Bytes} {pec : B} {c : Ctrl} (h10 : 10 ≤ p.length)
+    (h : getCtrl (p.drop 9) pec = .ok c) :
+    byteAt p (p.length - 1) = pec ∧
+    ((Spec.isRequest p = true ∧ 12 ≤ p.length ∧ c = ⟨Spec.cmdOf p, true, 2, p.length - 12⟩ ∧
+        ∃ n, reqDataLen (Spec.cmdOf p) = .ok n ∧ ¬ (n > 0 ∧ p.length - 12 ≠ n)) ∨
+     (Spec.isRequest p = false ∧ 13 ≤ p.length ∧ Spec.ccByte p = 0x00#8 ∧
+        c = ⟨Spec.cmdOf p, false, 3, p.length - 13⟩ ∧
+        ∃ n, respDataLen (Spec.cmdOf p) = .ok n ∧ ¬ (n > 0 ∧ p.length - 13 ≠ n))) := by
+  rw [getCtrl_drop9 p pec h10] at h
+  by_cases h12 : p.length < 12
+  · simp [h12] at h
+  · rw [if_neg h12] at h
+    cases hr : Spec.isRequest p
+    · simp only [hr, Bool.false_eq_true, if_false] at h
+      by_cases h13 : p.length < 13
+      · simp [h13] at h
+      · rw [if_neg h13] at h
+        by_cases hcc : Spec.ccByte p = 0x00#8
+        · simp only [hcc, ne_eq, not_true, if_false] at h
+          obtain ⟨n, hn, hf⟩ := Out.bind_eq_ok.mp h
+          obtain ⟨h1, h2, h3⟩ := ctrlFin_eq_ok hf
+          exact ⟨h1, .inr ⟨rfl, by omega, hcc, h3, n, hn, h2⟩⟩
+        · simp only [hcc, ne_eq, not_false_eq_true, if_true] at h
+          obtain ⟨n, _, hf⟩ := Out.bind_eq_ok.mp h
+          simp at hf
+    · simp only [hr, if_true] at h
+      obtain ⟨n, hn, hf⟩ := Out.bind_eq_ok.mp h
+      obtain ⟨h1, h2, h3⟩ := ctrlFin_eq_ok hf
+      exact ⟨h1, .inl ⟨rfl, by omega, h3, n, hn, h2⟩⟩
+
+/-- inversion of a rejecting control decode -/
+theorem getCtrl_err_inv {p : Bytes} {pec : B} {e : DErr} (h10 : 10 ≤ p.length)
+    (h : getCtrl (p.drop 9) pec = .err e) :
+    (p.length < 12 ∧ e = (.control, .ctl .len)) ∨
+    (Spec.isRequest p = true ∧ 12 ≤ p.length ∧ ∃ n, reqDataLen (Spec.cmdOf p) = .ok n ∧
+      ((byteAt p (p.length - 1) ≠ pec ∧ e = (.control, .ctl .pec)) ∨
+       (byteAt p (p.length - 1) = pec ∧ n > 0 ∧ p.length - 12 ≠ n ∧ e = (.control, .ctl .len)))) ∨
+    (Spec.isRequest p = false ∧ 12 ≤ p.length ∧ p.length < 13 ∧ e = (.control, .ctl .len)) ∨
+    (Spec.isRequest p = false ∧ 13 ≤ p.length ∧ Spec.ccByte p ≠ 0x00#8 ∧
+      ∃ c, ccOf (Spec.ccByte p) = .ok c ∧ e = (.control, .ctl (.cc c))) ∨
+    (Spec.isRequest p = false ∧ 13 ≤ p.length ∧ Spec.ccByte p = 0x00#8 ∧
+      ∃ n, respDataLen (Spec.cmdOf p) = .ok n ∧
+      ((byteAt p (p.length - 1) ≠ pec ∧ e = (.control, .ctl .pec)) ∨
+       (byteAt p (p.length - 1) = pec ∧ n > 0 ∧ p.length - 13 ≠ n ∧ e = (.control, .ctl .len)))) := by
+  rw [getCtrl_drop9 p pec h10] at h
+  by_cases h12 : p.length < 12
+  · simp only [h12, if_true] at h
+    injection h with h
+    exact .inl ⟨h12, h.symm⟩
+  · rw [if_neg h12] at h
+    cases hr : Spec.isRequest p
+    · simp only [hr, Bool.false_eq_true, if_false] at h
+      by_cases h13 : p.length < 13
+      · simp only [h13, if_true] at h
+        injection h with h
+        exact .inr (.inr (.inl ⟨rfl, by omega, h13, h.symm⟩))
+      · rw [if_neg h13] at h
+        by_cases hcc : Spec.ccByte p = 0x00#8
+        · simp only [hcc, ne_eq, not_true, if_false] at h
+          rcases Out.bind_eq_err.mp h with h | ⟨n, hn, hf⟩
+          · exact absurd h (respDataLen_ne_err _ _)
+          · refine .inr (.inr (.inr (.inr ⟨rfl, by omega, hcc, n, hn, ?_⟩)))
+            exact ctrlFin_eq_err hf
+        · simp only [hcc, ne_eq, not_false_eq_true, if_true] at h
+          rcases Out.bind_eq_err.mp h with h | ⟨c, hc, hf⟩
+          · exact absurd h (ccOf_ne_err _ _)
+          · injection hf with hf
+            exact .inr (.inr (.inr (.inl ⟨rfl, by omega, hcc, c, hc, hf.symm⟩)))
+    · simp only [hr, if_true] at h
+      rcases Out.bind_eq_err.mp h with h | ⟨n, hn, hf⟩
+      · exact absurd h (reqDataLen_ne_err _ _)
+      · exact .inr (.inl ⟨rfl, by omega, n, hn, ctrlFin_eq_err hf⟩)
+
+theorem decode_ok_inv {p : Bytes} {t : MsgType} {off len : Nat} (h : decode p = .ok (t, off, len)) :
+    10 ≤ p.length ∧ Spec.hdrOk p = true ∧ byteAt p (p.length - 1) = calcPec p ∧
+    ((Spec.isControl p = false ∧ t = Spec.msgTypeOf p ∧ off = 9 ∧ len = p.length - 1 - 9) ∨
+     (Spec.isControl p = true ∧ t = .control ∧
+        ∃ c, getCtrl (p.drop 9) (calcPec p) = .ok c ∧ off = 9 + c.off ∧ len = c.dataLen)) := by
+  rw [decode_nf] at h
+  by_cases h10 : p.length < 10
+  · simp [h10] at h
+  · rw [if_neg h10] at h
+    cases hh : Spec.hdrOk p
+    · simp [hh] at h
+    · simp only [hh, Bool.not_true, Bool.false_eq_true, if_false] at h
+      cases hc : Spec.isControl p
+      · simp only [hc, Bool.false_eq_true, if_false] at h
+        unfold vendorArm at h
+        by_cases hp : byteAt p (p.length - 1) = calcPec p
+        · simp only [hp, ne_eq, not_true, if_false] at h
+          injection h with h; injection h with h1 h2; injection h2 with h2 h3
+          exact ⟨by omega, rfl, hp, .inl ⟨rfl, h1.symm, h2.symm, h3.symm⟩⟩
+        · simp [hp] at h
+      · simp only [hc, if_true] at h
+        obtain ⟨c, hcok, hf⟩ := Out.bind_eq_ok.mp h
+        injection hf with hf; injection hf with h1 h2; injection h2 with h2 h3
+        have h10' : 10 ≤ p.length := by omega
+        exact ⟨h10', rfl, (getCtrl_ok_inv h10' hcok).1, .inr ⟨rfl, h1.symm, c, hcok, h2.symm, h3.symm⟩⟩
+
+theorem decode_err_inv {p : Bytes} {e : DErr} (h : decode p = .err e) :
+    ((p.length < 10 ∨ Spec.hdrOk p = false) ∧ e = (.invalid, .unknown)) ∨
+    (10 ≤ p.length ∧ Spec.hdrOk p = true ∧ Spec.isControl p = false ∧
+      byteAt p (p.length - 1) ≠ calcPec p ∧ e = (Spec.msgTypeOf p, .ctl .pec)) ∨
+    (10 ≤ p.length ∧ Spec.hdrOk p = true ∧ Spec.isControl p = true ∧
+      getCtrl (p.drop 9) (calcPec p) = .err e) := by
+  rw [decode_nf] at h
+  by_cases h10 : p.length < 10
+  · simp only [h10, if_true] at h
+    injection h with h
+    exact .inl ⟨.inl h10, h.symm⟩
+  · rw [if_neg h10] at h
+    cases hh : Spec.hdrOk p
+    · simp only [hh, Bool.not_false, if_true] at h
+      injection h with h
+      exact .inl ⟨.inr rfl, h.symm⟩
+    · simp only [hh, Bool.not_true, Bool.false_eq_true, if_false] at h
+      cases hc : Spec.isControl p
+      · simp only [hc, Bool.false_eq_true, if_false] at h
+        unfold vendorArm at h
+        by_cases hp : byteAt p (p.length - 1) = calcPec p
+        · simp [hp] at h
+        · simp only [hp, ne_eq, not_false_eq_true, if_true] at h
+          injection h with h
+          exact .inr (.inl ⟨by omega, rfl, rfl, hp, h.symm⟩)
+      · simp only [hc, if_true] at h
+        rcases Out.bind_eq_err.mp h with h | ⟨c, _, hf⟩
+        · exact .inr (.inr ⟨by omega, rfl, rfl, h⟩)
+        · simp at hf
+
+/-! ### acceptance helpers and the pieces of `Spec.inClaim` -/
+
+theorem Out.isOk_bind_ok {ε α β : Type} (x : Out ε α) (f : α → β) :
+    (x.bind fun a => .ok (f a)).isOk = x.isOk := by
+  cases x <;> rfl
+
+theorem ctrlFin_isOk (p : Bytes) (pec : B) (off : Nat) (r : Bool) (n : Nat) :
+    (ctrlFin p pec off r n).isOk =
+      (byteAt p (p.length - 1) == pec && !decide (n > 0 ∧ p.length - 10 - off ≠ n)) := by
+  unfold ctrlFin
+  by_cases h1 : byteAt p (p.length - 1) = pec
+  · by_cases h2 : n > 0 ∧ p.length - 10 - off ≠ n
+    · simp [h1, h2, Out.isOk]
+    · simp only [h1, h2, ne_eq, not_true, if_false, Out.isOk]; simp
+  · simp [h1, Out.isOk]
+
+theorem inClaim_inv (p : Bytes) (h : Spec.inClaim p = true) :
+    10 ≤ p.length ∧ (Spec.isControl p = true → Spec.hdrOk p = true →
+      (Spec.isRequest p = true → 12 ≤ p.length ∧ Spec.reqUnimpl (Spec.cmdOf p) = false) ∧
+      (Spec.isRequest p = false → 13 ≤ p.length ∧ (Spec.ccByte p).toNat < 6 ∧
+        (Spec.cmdOf p == 0x02#8 || Spec.cmdOf p == 0x08#8 || Spec.cmdOf p == 0x09#8) = false ∧
+        (Spec.ccByte p = 0x00#8 → Spec.respUnimpl (Spec.cmdOf p) = false))) := by
+  unfold Spec.inClaim at h
+  simp only [Bool.and_eq_true] at h
+  obtain ⟨⟨hlong, hexcl⟩, hpan⟩ := h
+  unfold Spec.longEnough at hlong
+  simp only [Bool.and_eq_true, decide_eq_true_eq] at hlong
+  obtain ⟨h10, hlong⟩ := hlong
+  refine ⟨h10, fun hc hh => ?_⟩
+  unfold Spec.decodePanicClass at hpan
+  rw [hc] at hlong hexcl
+  rw [hh, hc] at hpan
+  simp only [if_true, Bool.true_and, Bool.and_true, decide_eq_true_eq, h10, decide_true] at hlong hexcl hpan
+  constructor
+  · intro hr
+    rw [hr] at hlong hpan
+    simp at hlong hpan
+    exact ⟨hlong, hpan hlong⟩
+  · intro hr
+    rw [hr] at hlong hexcl hpan
+    simp at hlong hexcl hpan
+    have hpan := hpan (by omega) hlong
+    have hcc6 : (Spec.ccByte p).toNat < 6 := by
+      by_cases h6 : 6 ≤ (Spec.ccByte p).toNat
+      · simp [h6] at hpan
+      · omega
+    refine ⟨hlong, hcc6, by simp [hexcl], fun hcc => ?_⟩
+    have h6 : ¬ 6 ≤ (Spec.ccByte p).toNat := by omega
+    rw [if_neg h6] at hpan
+    cases hu : Spec.respUnimpl (Spec.cmdOf p)
+    · rfl
+    · simp [hcc, hu] at hpan
+
 end Mctp
